@@ -123,7 +123,8 @@ def structured_program(sid, rng, mbc=None, steps=None):
     if mbc is None: mbc = rng.choice([None, None, 1, 0x13])
     if mbc == 1: cart = (rng.choice([1, 3]), 2, 3)
     if mbc == 0x13: cart = (rng.choice([0x11, 0x13]), 3, 3)
-    banks = {0: 2, 2: 8, 3: 16}[cart[1]]
+    if mbc == 0x33: cart = (0x13, 5, 3)            # 64 banks: bank numbers that differ by 32 hold different code
+    banks = {0: 2, 2: 8, 3: 16, 5: 64}[cart[1]]
     chunks = []
     counter = [0xC100, 0xC101, 0xC102, 0xFF90, 0xFF91]
     # interrupt handlers
@@ -154,6 +155,7 @@ def structured_program(sid, rng, mbc=None, steps=None):
     nsnip = rng.randint(4, 14)
     for si in range(nsnip):
         k = rng.randrange(13)
+        if mbc and rng.randrange(3) == 0: k = 8
         if k == 0:
             for _ in range(rng.randint(1, 8)): a.emit(*alu_op(rng))
         elif k == 1:                                                  # counted loop
@@ -191,7 +193,7 @@ def structured_program(sid, rng, mbc=None, steps=None):
             for x in body: a.emit(0x36, x, 0x23)
             a.emit(0xCD); a.word(dst)
         elif k == 8 and mbc:                                          # bank switch and call into the bank
-            bank = rng.randrange(1, banks)
+            bank = rng.randrange(1, banks) if banks <= 16 else rng.choice([1, 33, 2, 34, 1, 33, 17, 49])
             a.emit(0x3E, bank, 0xEA); a.word(rng.choice([0x2000, 0x2100, 0x3FFF]))
             a.emit(0xCD); a.word(0x4000 + 16 * rng.randrange(4))
         elif k == 9:                                                  # serial output
@@ -319,19 +321,64 @@ def random_blocks(n, rng, start_id=4000000, maxlen=32):
     return [random_block_scenario(start_id + i, rng, maxlen) for i in range(n)]
 
 
-def straddle_programs():
-    """C06(d): an instruction whose bytes straddle the end of a fetch region."""
+def straddle_programs(rom_only=False):
+    """Instructions whose bytes straddle the end of a fetch region: 2- and 3-byte instructions with the opcode on
+    the last and on the last-but-one byte of ROM bank 0 (into whichever bank is mapped), of the switchable bank (into
+    video RAM), of both work-RAM banks and of high RAM (into IE), with operand bytes that differ from each other and
+    from bank to bank."""
     out = []
     sid = 5000000
-    # two-byte LD A,n with the opcode at the last byte of: ROM bank 0, work RAM bank 0, work RAM, high RAM
-    for base, label in ((0x3FFF, "rom0-end"), (0xCFFF, "wram0-end"), (0x7FFF, "romx-end")):
-        if base < 0x8000:
-            chunks = [(base, [0x3E, 0x42, 0x00, 0x18, 0xFE])] if base != 0x7FFF else [(base, [0x3E])]
-            out.append(scenario(sid, chunks, cpu(pc=base), 1, cart=(0, 0, 2)))
-        else:
-            iw = [(base, 0x3E), (base + 1, 0x42), (base + 2, 0x00)]
-            out.append(scenario(sid, [(0x100, [0x00])], cpu(pc=base), 1, cart=(0, 0, 2), init_writes=iw))
-        sid += 1
+    forms = [("ld_a_n", [0x3E], 1), ("ld_bc_nn", [0x01], 2), ("jp_nn", [0xC3], 2), ("ld_a_nn", [0xFA], 2), ("ld_hl_n", [0x36], 1)]
+    for cart in ((1, 2, 2), (0x11, 2, 2)):
+        for bank in (1, 2, 3):
+            for name, opc, noper in forms:
+                for back in range(0, noper):        # opcode `back` bytes before the last byte of the region
+                    # end of ROM bank 0: the operand bytes come from whichever bank is mapped
+                    start = 0x3FFF - back
+                    a = Asm(0x150)
+                    a.emit(0x31); a.word(0xDFF0)
+                    a.emit(0x21); a.word(0xC800)
+                    a.emit(0x3E, bank, 0xEA); a.word(0x2000)
+                    a.emit(0xC3); a.word(start)
+                    chunks = [(0x100, [0x00, 0xC3, 0x50, 0x01]), (a.org, a.resolve())]
+                    chunks.append((start, opc + [0x10 * bank, 0xC2][:back]))          # bytes that still lie in bank 0
+                    for b in range(1, 8):
+                        rest = ([0x10 * b, 0xC2] if noper == 2 else [0x10 * b])[back:]
+                        chunks.append((b * 0x4000, rest + [0x06, b, 0x18, 0xFE]))     # then a marker and a loop
+                    # JP nn lands in work RAM at 0xC2b0: a tight loop waits there
+                    iw = [(0xC200 + 0x10 * b + k, v) for b in range(1, 8) for k, v in enumerate((0x18, 0xFE))]
+                    out.append(scenario(sid, chunks, cpu(pc=0x100, sp=0xFFFE), 6, mode="block", cart=cart, init_writes=iw))
+                    sid += 1
+    if rom_only:
+        return out
+    for name, opc, noper in forms:
+        for back in range(0, noper):
+            for end in (0x7FFF, 0xCFFF, 0xDFFF, 0xFFFE):
+                start = end - back
+                iw = []
+                code = opc + [0x5A, 0xC3][:noper]
+                romchunks = [(0x100, [0x00])]
+                for i, byte in enumerate(code):
+                    ad = start + i
+                    if ad < 0x8000: romchunks.append((ad, [byte]))      # bank 1 of a ROM-only cartridge
+                    elif ad < 0xFF00 or ad >= 0xFF80: iw.append((ad & 0xFFFF, byte))
+                regs = cpu(pc=start, sp=0xDFF0, h=0xC8, l=0x00)
+                out.append(scenario(sid, romchunks, regs, 1, cart=(0, 0, 2), init_writes=iw, romfill=0x00))
+                sid += 1
+    return out
+
+
+def long_blocks(n, rng, start_id=4500000):
+    """Straight-line blocks of several hundred cheap instructions: more than 255 machine cycles in one block."""
+    out = []
+    for i in range(n):
+        body = []
+        for _ in range(rng.randint(150, 500)):
+            body += alu_op(rng)
+        code = body + rand_instr(rng, rng.choice([0xC3, 0x18, 0xC9, 0x76, 0xE9]))
+        regs = cpu(a=rng.randrange(256), f=rng.randrange(16) * 16, sp=0xDFF0, pc=0x0200)
+        out.append(scenario(start_id + i, [(0x0200, code)], regs, 1, mode="block", cart=(0, 0, 2), romfill=0x00,
+                            init_writes=[(0xFF07, rng.choice([4, 5, 6, 7])), (0xFFFF, 0x05)]))
     return out
 
 
@@ -339,25 +386,33 @@ def straddle_programs():
 LO_BLOCK = 0x0200
 HI_BLOCKS = [0x4000, 0x4010]
 
-def cache_history_scenario(sid, steps, cart, bankreg=0x2000):
+def cache_history_scenario(sid, steps, cart, bankreg=0x2000, bankmap=(1, 2, 3)):
     """A history of the CodeCache model as a program: bank-register writes and calls of blocks that
-    load their own bank index (A) and slot (C); every ROM bank holds different code at the same addresses."""
-    banks = {0: 2, 1: 4, 2: 8, 3: 16}[cart[1]]
+    load their own bank index (A) and slot (C); every ROM bank holds different code at the same addresses.
+    Symbols: 0..2 switch to bankmap[s] from ROM code; 3 run the low block; 4, 5 run high block 0 / 1;
+    6..8 switch to bankmap[s - 6] from a routine in work RAM (interpreted) that jumps straight into high block 0."""
     a = Asm(0x150)
     a.emit(0x31); a.word(0xDFF0)
+    ram = any(x >= 6 for x in steps)
+    if ram:
+        routine = [0x78, 0xEA, bankreg & 0xFF, bankreg >> 8, 0xC3, 0x00, 0x40]      # LD A,B ; LD (bankreg),A ; JP 0x4000
+        a.emit(0x21); a.word(0xC000)
+        for x in routine: a.emit(0x36, x, 0x23)
     for sym in steps:
         if sym < 3:
-            a.emit(0x3E, sym + 1, 0xEA); a.word(bankreg)
+            a.emit(0x3E, bankmap[sym], 0xEA); a.word(bankreg)
         elif sym == 3:
             a.emit(0xCD); a.word(LO_BLOCK)
-        else:
+        elif sym < 6:
             a.emit(0xCD); a.word(HI_BLOCKS[sym - 4])
+        else:
+            a.emit(0x06, bankmap[sym - 6], 0xCD); a.word(0xC000)
     a.label("END"); a.jr(0x18, "END")
     chunks = [(0x100, [0x00, 0xC3, 0x50, 0x01]), (a.org, a.resolve()), (LO_BLOCK, [0x3E, 0x00, 0x0E, 0xE0, 0xC9])]
-    for b in range(1, banks):
+    for b in sorted(set(list(bankmap) + [1])):
         for k, addr in enumerate(HI_BLOCKS):
             chunks.append((b * 0x4000 + (addr - 0x4000), [0x3E, b, 0x0E, k, 0xC9]))
-    nsteps = 2 + sum(1 if s < 3 else 2 for s in steps) + 2
+    nsteps = 3 + sum(1 if x < 3 else (2 if x < 6 else 3) for x in steps) + 2
     return scenario(sid, chunks, cpu(pc=0x100, sp=0xFFFE), nsteps, mode="block", cart=cart)
 
 def cache_events(trace_lines):
@@ -423,8 +478,11 @@ def serial_program(sid, rng, nwrites=None, in_ram=False):
     for _ in range(n):
         reg = rng.choice([1, 2, 2, 2])
         v = rng.choice([0x80, 0x81, 0xFF, 0x00, 0x01, 0x7F]) if (reg == 2 and rng.randrange(3)) else rng.randrange(256)
-        k = rng.randrange(6)
-        if k == 0:   t.emit(0x3E, v, 0xE0, reg)                                   # LD A,v ; LDH (reg),A
+        k = rng.randrange(7)
+        if k == 6:
+            w = rng.randrange(65536)                                              # LD (0xFF01),SP: SB := low, then SC := high
+            t.emit(0x31, w & 0xFF, w >> 8, 0x08, 0x01, 0xFF, 0x31, 0xF0, 0xDF)
+        elif k == 0: t.emit(0x3E, v, 0xE0, reg)                                   # LD A,v ; LDH (reg),A
         elif k == 1: t.emit(0x3E, v, 0x0E, reg, 0xE2)                             # LD C,reg ; LD (C),A
         elif k == 2: t.emit(0x21, reg, 0xFF, 0x36, v)                             # LD HL,0xFF0r ; LD (HL),v
         elif k == 3: t.emit(0x3E, v, 0xEA, reg, 0xFF)                             # LD (0xFF0r),A
@@ -553,3 +611,49 @@ def scene(sid, rng, kind="random"):
 def scenes(n, rng, start_id=8000000):
     kinds = ["random", "window", "crowded", "tall", "priority", "scroll"]
     return [scene(start_id + i, rng, kinds[i % len(kinds)]) for i in range(n)]
+
+
+
+def alu_table_programs(rng):
+    """Programs that walk a table of AF values through the accumulator/flag instructions (DAA above all) and
+    through ADC/SBC, storing every result: the flag states ordinary code rarely produces."""
+    out = []
+    sid = 2900000
+    for fam in range(4):
+        vals = []
+        if fam == 0:   vals = [(a << 8) | f for a in range(0x90, 0xA0) for f in range(0, 256, 16)]
+        elif fam == 1: vals = [(a << 8) | f for a in (0x00, 0x09, 0x0A, 0x0F, 0x10, 0x60, 0x66, 0x99, 0x9A, 0xA0, 0xF9, 0xFA, 0xFF) for f in range(0, 256, 16)]
+        else:          vals = [rng.randrange(65536) & 0xFFF0 for _ in range(200)]
+        table = []
+        for v in vals: table += [v & 0xFF, v >> 8]
+        a = Asm(0x150)
+        a.emit(0x31); a.word(0x2000)          # SP -> table in ROM (POP only reads)
+        a.emit(0x21); a.word(0xC000)          # HL -> results
+        a.emit(0x06, len(vals) & 0xFF if len(vals) < 256 else 0)
+        a.label("LOOP")
+        a.emit(0xF1)                          # POP AF
+        op = [0x27, 0x27, 0x8F, 0x9F][fam]    # DAA, DAA, ADC A,A, SBC A,A
+        a.emit(op, 0x22)                      # op ; LD (HL+),A
+        a.emit(0xF5, 0xD1, 0x73, 0x23, 0x33, 0x33)   # PUSH AF ; POP DE ; LD (HL),E ; INC HL ; INC SP ; INC SP  (flags stored too)
+        a.emit(0x05); a.jr(0x20, "LOOP")
+        a.label("END"); a.jr(0x18, "END")
+        chunks = [(0x100, [0x00, 0xC3, 0x50, 0x01]), (a.org, a.resolve()), (0x2000, table)]
+        out.append(scenario(sid + fam, chunks, cpu(**BOOT), 3 + 2 * len(vals) + 4, cart=(0, 0, 2), romfill=0x00))
+    return out
+
+
+def dispatch_cancel_programs(rng):
+    """Interrupt dispatches whose own pushes land on IE / IF (stack pointer 0x0000, 0x0001, 0xFF10, 0xFF11) and may
+    cancel the dispatch; also ordinary stack pointers for contrast."""
+    out = []
+    sid = 9000000
+    for spv in (0x0000, 0x0001, 0xFF10, 0xFF11, 0xDFF0, 0x0002, 0xFF0F):
+        for pcbase in (0x0150, 0x0080, 0x2F10):
+            for iflag, ie in ((0x04, 0x04), (0x01, 0x1F), (0x10, 0x10), (0x1F, 0x1F), (0x05, 0x04)):
+                for imeon in ("Enabled", "EnableNext"):
+                    code = [0x00, 0x00, 0x00, 0x18, 0xFD]                       # NOP NOP NOP ; JR -3
+                    chunks = [(0x40 + 8 * b, [0x00, 0x18, 0xFD]) for b in range(5)] + [(0x0000, [0x00, 0x00, 0x18, 0xFC]), (pcbase, code)]
+                    out.append(scenario(sid, chunks, cpu(sp=spv, pc=pcbase), 6, ime=imeon,
+                                        init_writes=[(0xFFFF, ie), (0xFF0F, iflag)], cart=(0, 0, 2), romfill=0x00))
+                    sid += 1
+    return out
